@@ -17,14 +17,24 @@ def asEOp (j : Json) : R EOp := do
   let k ← getStr j "k"
   match k with
   | "connect" =>
-    pure (.connect ⟨← getNat j "event", ← asOptNat j "sender", ← getNat j "id", ← asOptNat j "owner",
+    -- `fname` = func.__name__, `event` = the explicit `event=` argument (null when absent)
+    let ev ← match j.getObjVal? "event" with
+      | .ok v => asOpt asStr v
+      | .error _ => pure none
+    pure (.connect ⟨← getStr j "fname", ev, ← asOptNat j "sender", ← getNat j "id", ← asOptNat j "owner",
                     ← getBool j "last"⟩)
   | "unconnect" => pure (.unconnect (← fld j "items" >>= asList asUItem))
   | "reset" => pure .reset
   | "set_silent" => pure (.setSilent (← getBool j "b"))
   | "enter" => pure .enterSilent
   | "exit" => pure .exitSilent
-  | "emit" => pure (.emit (← getNat j "event") (← getNat j "sender") (← getBool j "single"))
+  | "emit" =>
+    let kw ← fld j "kwargs" >>= asList fun e => do
+      let p ← asArr e
+      match p with
+      | [k, v] => do pure (← asStr k, ← asNat v)
+      | _ => .error "kwargs entry"
+    pure (.emit (← getStr j "event") (← getNat j "sender") (← getNats j "args") kw)
   | _ => .error s!"emitter op {k}"
 
 def jRet : Ret → Json
@@ -32,7 +42,11 @@ def jRet : Ret → Json
   | .list l => jNats l
   | .one r => Json.mkObj [("one", jNat r)]
 
-def jEOut (o : EOut) : Json := Json.mkObj [("calls", jNats o.calls), ("ret", jRet o.ret)]
+def jCall (c : Call) : Json :=
+  Json.arr #[jNat c.id, jNat c.sender, jNats c.args,
+             jList (fun (p : String × Nat) => Json.arr #[Json.str p.1, jNat p.2]) c.kwargs]
+
+def jEOut (o : EOut) : Json := Json.mkObj [("calls", jList jCall o.calls), ("ret", jRet o.ret)]
 
 def asROp (j : Json) : R ROp := do
   let k ← getStr j "k"
@@ -52,9 +66,16 @@ def runC19 (op : String) (j : Json) : R Json := do
   match op with
   | "emitter" =>
     let ops ← fld j "ops" >>= asList asEOp
-    pure (Json.mkObj [("model", jList jEOut (erun EState.init ops)),
-                      ("spec", jList jEOut (emitsSpec [] ops)),
-                      ("silent", Json.bool (erunState EState.init ops).silent)])
+    -- `spec` is the specification for every history (`emit_outcomes_any_nesting`); callbacks behave
+    -- as the harness's recording stubs (`stubResult`)
+    pure (Json.mkObj [("model", jList jEOut (erun stubResult EState.init ops)),
+                      ("spec", jList jEOut (emitsSpecG stubResult [] ops)),
+                      ("silent", Json.bool (erunState stubResult EState.init ops).silent),
+                      ("silent_spec", Json.bool (silencedAfter ops))])
+  | "connect_name" =>
+    -- event name a `connect(func)` derives from `func.__name__` (null = ValueError)
+    let names ← fld j "names" >>= asList asStr
+    pure (Json.mkObj [("events", jList (jOpt Json.str) (names.map getOnName))])
   | "reporter" =>
     let ops ← fld j "ops" >>= asList asROp
     let tr := rrun RState.init ops
